@@ -72,7 +72,7 @@ def churn(ctx):
 
 def churn_deaths(ctx):
     """a pool that breaks while another worker's process tree keeps changing: all workers killed and reaped"""
-    trials = 5 if ctx.tier == "quick" else 20
+    trials = 8 if ctx.tier == "quick" else 25
     res = runner.run_script(kill_scen.SCRIPT, vlib.REPO, timeout=120 + 60 * trials, args=("churn_death", trials))
     got = runner.last_json(res)
     why = []
